@@ -32,6 +32,9 @@ type c18Scenario struct {
 	ties   bool // records of different containers share timestamps (rendering is then not compared)
 	labels func(i int) map[string]string
 	msg    func(i, j int) string // message of record j of container i (default: m<i>-<j>)
+	// created: creation time of container i in unix seconds (default 0); the fake daemon of such a scenario answers
+	// with the frames inside the requested window only, as the daemon does
+	created func(i int) int64
 	query  string
 	params logqlengine.EvalParams
 }
@@ -82,6 +85,13 @@ var c18Scenarios = []c18Scenario{
 	{name: "empty-value-log-3", n: 3, msg: func(i, j int) string {
 		return []string{"level= x=1", "x=1", "level=info x=1"}[(i+j)%3]
 	}, query: `{} | logfmt | keep level`, params: c18Log()},
+	// distinct over two labels is order sensitive (a record rejected for the first label never records its value of the
+	// second): the listed order counts, in every evaluation
+	{name: "distinct-two-labels-1", n: 1, msg: func(i, j int) string { return []string{"a=1 b=1", "a=2 b=1", "a=2 b=3"}[j] }, query: `{} | logfmt | distinct a, b`, params: c18Log()},
+	{name: "distinct-three-labels-2", n: 2, msg: func(i, j int) string { return []string{"a=1 b=1 c=1", "a=2 b=1 c=2", "a=2 b=3 c=2"}[(i+j)%3] }, query: `count_over_time({} | logfmt | distinct c, a, b [10s])`, params: c18Range()},
+	// containers created inside the queried range (after its start), next to older ones; the daemon honours since/until
+	{name: "young-log-3", n: 3, query: `{}`, params: c18Log(), created: func(i int) int64 { return []int64{0, 2, 0}[i] }},
+	{name: "young-count-3", n: 3, query: `sum(count_over_time({}[4s]))`, params: c18Range(), created: func(i int) int64 { return []int64{3, 0, 2}[i] }},
 	{name: "min-nan-3", n: 3, msg: c18NaNMsg, query: `min(sum_over_time({} | logfmt | drop msg | unwrap v [4s]))`, params: c18Range()},
 }
 
@@ -132,7 +142,11 @@ func c18Containers(sc c18Scenario) []fakedocker.Container {
 		if sc.labels != nil {
 			labels = sc.labels(i)
 		}
-		out = append(out, fakedocker.Container{ID: fmt.Sprintf("id%d", i), Name: fmt.Sprintf("/n%d", i), Image: fmt.Sprintf("img%d", i%2), State: "running", Labels: labels, Log: fakedocker.Encode(recs)})
+		var created int64
+		if sc.created != nil {
+			created = sc.created(i)
+		}
+		out = append(out, fakedocker.Container{ID: fmt.Sprintf("id%d", i), Name: fmt.Sprintf("/n%d", i), Image: fmt.Sprintf("img%d", i%2), State: "running", Labels: labels, Log: fakedocker.Encode(recs), Created: created})
 	}
 	return out
 }
@@ -194,6 +208,7 @@ func c18Exec(c *vsched.Ctx, in c18Input, mapOrders bool) (obs c18Obs) {
 	sc := c18ByName(in.Scenario)
 	ctrs := c18Containers(sc)
 	fake := fakedocker.New(ctrs)
+	fake.HonourWindow = sc.created != nil
 	var data lokiapi.QueryResponseData
 	var evalErr error
 	body := func() {
@@ -420,6 +435,7 @@ func c18RaceRun(r *vkit.Run) {
 				ctrs[it%len(ctrs)].OpenErr = fakedocker.ErrInjected
 			}
 			fake := fakedocker.New(ctrs)
+			fake.HonourWindow = sc.created != nil
 			k := it
 			ctx, cancel := context.WithCancel(context.Background())
 			var yields atomic.Int64
